@@ -790,16 +790,19 @@ theorem supported_succ (ck : CK F) (k : Nat) (hk : ck.commKey.length = 2 ^ k) :
   have : 0 < 2 ^ k := Nat.pow_pos (by omega)
   omega
 
-/-- **Completeness of `open`/`check`** for every power-of-two key, every list of polynomials in
-normal form with their commitments and states as `commit` returns them (degree bounds and hiding
-included), every point and all oracle outputs: whenever the prover returns a proof, it has exactly
-`k = log₂(s+1)` rounds and `check` accepts the true values. -/
-theorem open_check_complete [DecidableEq F] (ck : CK F) (k : Nat) (hk : ck.commKey.length = 2 ^ k)
+/-- **Completeness at the level of `succinct_check`** for every power-of-two key, every list of
+polynomials in normal form with their commitments and states as `commit` returns them (degree
+bounds and hiding included), every point and all oracle outputs: whenever the prover returns a
+proof, it has exactly `k = log₂(s+1)` rounds, `succinct_check` passes on the true values and
+leaves the sponge / random oracle where the prover left them, and the final-key defect is zero. -/
+theorem open_succinct_complete [DecidableEq F] (ck : CK F) (k : Nat) (hk : ck.commKey.length = 2 ^ k)
     (polys : List (LPoly F)) (comms : List (LComm F)) (sts : List (Rand F))
     (hall : AllCommitted ck polys comms sts) (hnf : ∀ p ∈ polys, pnorm p.poly = p.poly)
     (z : F) (ξs ros : List F) (rng : Bool) (draws : List F) (π : Proof F) (ξr ror dr : List F)
     (ho : IPA.open ck polys comms z sts ξs ros rng draws = .ok (π, ξr, ror, dr)) :
-    check ck comms z (polys.map fun p => evalPoly p.poly z) π ξs ros = .ok true ∧
+    badShape ck π = false ∧
+      (∃ us, succinctCheck ck comms z (polys.map fun p => evalPoly p.poly z) π ξs ros
+          = .ok (some us, ξr, ror) ∧ defect2 ck π us = 0) ∧
       π.lVec.length = k ∧ π.rVec.length = k := by
   have hn := supported_succ ck k hk
   unfold IPA.open at ho
@@ -823,7 +826,8 @@ theorem open_check_complete [DecidableEq F] (ck : CK F) (k : Nat) (hk : ck.commK
             · cases ho
             · rename_i π' hmk
               injection ho with ho; injection ho with ho1 ho2
-              subst ho1
+              injection ho2 with ho2 ho3; injection ho3 with ho3 ho4
+              subst ho1; subst ho2; subst ho3
               -- the combining loops
               obtain ⟨hacc, hI, hJ, hL⟩ := loops_agree ck z polys comms sts cur ξs'
                 ⟨[], 0, 0, false⟩ acc ξrest hall hnf hloop (by simp) (by simp) (by simp)
@@ -846,27 +850,14 @@ theorem open_check_complete [DecidableEq F] (ck : CK F) (k : Nat) (hk : ck.commK
               subst hmk
               obtain ⟨hadj, hC, hV, hL'⟩ := hidingStep_spec ck z acc acc' rng draws ros (ξ₀ :: ros2) draws' hc
                 ⟨ls, rs, K, c, hc, if acc.hid then some acc'.r else none⟩ hhid rfl rfl hI hJ hL
-              refine ⟨?_, hl, hr⟩
-              unfold check
               have hshape : badShape ck ⟨ls, rs, K, c, hc, if acc.hid then some acc'.r else none⟩
                   = false := by
                 unfold badShape
                 simp only [hl, hr, hn, clog2_pow]
                 simp
-              rw [hshape]
-              simp only [Bool.false_eq_true, if_false]
-              unfold succinctCheck succinctRun
-              simp only
               have hacc' : accLoop ck z comms (polys.map fun p => evalPoly p.poly z) cur ξs' 0 0
                   = .ok ((acc.c, evalPoly acc.p z), ξrest) := by
                 simpa using hacc
-              rw [hacc']
-              simp only
-              rw [hadj]
-              simp only
-              rw [hros, verifyRounds_ok us ros3 ls rs (by omega) (by omega) hne]
-              simp only
-              -- the two defects vanish
               have hzf' : zf = Succinct.evaluate us z := by
                 rw [hzf, dot_comm, dot_powers _ _ _ _ (by
                   rw [Succinct.computeCoeffs_length, huslen]),
@@ -880,13 +871,35 @@ theorem open_check_complete [DecidableEq F] (ck : CK F) (k : Nat) (hk : ck.commK
                   evalPoly_padTo, ← hC, hV] at heq
                 rw [← hzf']
                 linear_combination heq
-              rw [hd1]
-              simp only [if_true, finalKeyOk]
-              congr 1
-              rw [decide_eq_true_iff]
-              unfold defect2
-              simp only
-              rw [hK]; ring
+              refine ⟨hshape, ⟨us, ?_, ?_⟩, hl, hr⟩
+              · unfold succinctCheck succinctRun
+                simp only
+                rw [hacc']
+                simp only
+                rw [hadj]
+                simp only
+                rw [hros, verifyRounds_ok us ros3 ls rs (by omega) (by omega) hne]
+                simp only
+                rw [hd1]
+                simp only [if_true]
+              · unfold defect2
+                simp only
+                rw [hK]; ring
+
+/-- **Completeness of `open`/`check`**: under the same hypotheses `check` accepts the true values. -/
+theorem open_check_complete [DecidableEq F] (ck : CK F) (k : Nat) (hk : ck.commKey.length = 2 ^ k)
+    (polys : List (LPoly F)) (comms : List (LComm F)) (sts : List (Rand F))
+    (hall : AllCommitted ck polys comms sts) (hnf : ∀ p ∈ polys, pnorm p.poly = p.poly)
+    (z : F) (ξs ros : List F) (rng : Bool) (draws : List F) (π : Proof F) (ξr ror dr : List F)
+    (ho : IPA.open ck polys comms z sts ξs ros rng draws = .ok (π, ξr, ror, dr)) :
+    check ck comms z (polys.map fun p => evalPoly p.poly z) π ξs ros = .ok true ∧
+      π.lVec.length = k ∧ π.rVec.length = k := by
+  obtain ⟨hshape, ⟨us, hsc, hd2⟩, hl, hr⟩ := open_succinct_complete ck k hk polys comms sts hall hnf
+    z ξs ros rng draws π ξr ror dr ho
+  refine ⟨?_, hl, hr⟩
+  unfold check
+  rw [hshape, hsc]
+  simp [finalKeyOk, hd2]
 
 end IPA
 end PCV
